@@ -66,11 +66,13 @@ def gen_script(rng, n, reentrant):
 class Log(object):
     """A partition log: ascending offsets with gaps, sizes in bytes."""
 
-    def __init__(self, rng, buf, mx):
+    def __init__(self, rng, buf, mx, fit=False):
         self.entries = []  # (offset, pid, size)
         off = rng.choice([0, 0, 3, 17])
         cap = mx if mx is not None else buf * 300
         sizes = [10, 30, buf // 2, buf - 1, buf, buf + 1, buf * 2, buf * 16 - 1, buf * 16 + 1, 2 ** 20 - 5, 2 ** 20 + 5, cap - 1, cap, cap + 1]
+        if fit:  # every message fits the maximum buffer
+            sizes = [x for x in sizes if x <= cap]
         n = rng.randrange(3, 25)
         for pid in range(1, n + 1):
             if rng.random() < 0.75:
@@ -236,6 +238,236 @@ class Gen(object):
                 impl.append(run.step(ev))
                 if run.crashed:
                     break
+        finally:
+            run.end()
+        return sc, impl, run
+
+
+class MacroGen(Gen):
+    """Lifecycle scenarios: a random sequence of GOALS (start here, process a few blocks, commit with this
+    outcome, fail k times, idle fetch, out-of-range, auto-commit tick, stop, shutdown, restart elsewhere),
+    each driven to completion adaptively.  Reaches in a dozen events the histories that single random
+    events reach rarely (commit N, stop, restart at an earlier offset, shutdown; k failures then an idle
+    fetch then a failure; the k-th consecutive failure being out-of-range; ...)."""
+
+    def generate(self):
+        rng = self.rng
+        sc = {"cfg": self.cfg, "script": self.script, "events": []}
+        if self.log is not None:
+            sc["log"] = self.log.msgs()
+        run = Run(sc)
+        impl = []
+        self.next_off = {}
+
+        def do(ev):
+            if len(sc["events"]) >= self.steps or run.crashed:
+                return False
+            sc["events"].append(ev)
+            impl.append(run.step(ev))
+            return True
+
+        def outstanding(kinds):
+            return [r for r in run.client.reqs.values() if not r.done and not r.cancelled and r.kind in kinds]
+
+        def fire(kind, name):
+            ps = run.clock.pending(kind)
+            if not ps:
+                return False
+            if ps[0].getTime() > run.clock.seconds():
+                need = Fraction(ps[0].getTime() - run.clock.seconds()).limit_denominator(10 ** 6)
+                do("advance %s" % Fraction(max((need * 16).__ceil__(), 1), 16))
+            return do(name)
+
+        def reply_ok(r, n=None):
+            if r.kind == "fetch":
+                off = r.args["offset"]
+                if self.faithful:
+                    rep = self.log.reply(rng, off, r.args["max_bytes"])
+                    if rep[0] == "err":
+                        return do("fetchDone %d err outOfRange:%d" % (r.k, self.next_tag()))
+                    return do("fetchDone %d ok %s %s" % (r.k, ",".join("%d:%d" % it for it in rep[1]) or "-", rep[2]))
+                n = rng.choice([1, 2, 3, 5]) if n is None else n
+                items, o = [], off
+                for _ in range(n):
+                    items.append((o, self.next_tag()))
+                    o += rng.choice([1, 1, 1, 2])
+                return do("fetchDone %d ok %s end" % (r.k, ",".join("%d:%d" % it for it in items) or "-"))
+            if r.kind == "offsets":
+                v = (self.log.earliest() if r.args["time"] == -2 else self.log.end) if self.faithful else rng.choice([0, 3, 10])
+                return do("offsetDone %d ok %d" % (r.k, v))
+            if r.kind == "offsetFetch":
+                return do("offsetFetchDone %d ok %d" % (r.k, rng.choice([-1, 0, 0, 2, 7])))
+            return do("commitDone %d ok" % r.k)
+
+        def settle(blocks):
+            """answer requests, fire the refetch timer, finish processor calls - until `blocks` blocks are done"""
+            done = 0
+            for _ in range(30):
+                if run.procd is not None and not run.procd.called:
+                    if not do("procDone ok"):
+                        return
+                    done += 1
+                    if done >= blocks:
+                        return
+                    continue
+                rs = outstanding(("fetch", "offsets", "offsetFetch"))
+                if rs:
+                    before = sum(1 for o in impl for l in o if l.startswith("procRet ok"))
+                    if not reply_ok(rs[0]):
+                        return
+                    done += sum(1 for o in impl for l in o if l.startswith("procRet ok")) - before
+                    if done >= blocks:
+                        return
+                    continue
+                if run.clock.pending("retry"):
+                    if not fire("retry", "retryFire"):
+                        return
+                    continue
+                return
+
+        def commit_replies(outcome):
+            for _ in range(6):
+                rs = outstanding(("commit",))
+                if not rs:
+                    if run.clock.pending("commit"):
+                        fire("commit", "commitRetryFire")
+                        continue
+                    return
+                if outcome == "ok":
+                    do("commitDone %d ok" % rs[0].k)
+                    return
+                if outcome == "fatal":
+                    do("commitDone %d err groupFatal:%d" % (rs[0].k, self.next_tag()))
+                    return
+                do("commitDone %d err kafka:%d" % (rs[0].k, self.next_tag()))
+                if outcome == "retry-progress":
+                    settle(1)  # the processor completes more while the commit backs off
+                outcome = "ok" if rng.random() < 0.6 else outcome
+
+        run.begin()
+        try:
+            do("start %d" % rng.choice([0, 3, 5, 12, -2, -1] + ([-101, -101] if self.cfg["group"] else [])))
+            for _ in range(rng.randrange(4, 10)):
+                if run.crashed or len(sc["events"]) >= self.steps:
+                    break
+                m = rng.choice(["settle", "settle", "settle", "commit", "commit", "fail", "fail", "idle", "oor", "tick", "stop", "shutdown", "restart", "restart-back"])
+                running = run.consumer._start_d is not None
+                if m == "settle":
+                    settle(rng.choice([1, 2, 3]))
+                elif m == "commit":
+                    do("commit")
+                    commit_replies(rng.choice(["ok", "ok", "retry", "retry-progress", "fatal"]))
+                elif m == "fail":
+                    for _ in range(rng.choice([1, 2, 3, 4])):
+                        rs = outstanding(("fetch", "offsets", "offsetFetch"))
+                        if not rs:
+                            if not fire("retry", "retryFire"):
+                                break
+                            rs = outstanding(("fetch", "offsets", "offsetFetch"))
+                            if not rs:
+                                break
+                        kind = {"fetch": "fetchDone", "offsets": "offsetDone", "offsetFetch": "offsetFetchDone"}[rs[0].kind]
+                        do("%s %d err kafka:%d" % (kind, rs[0].k, self.next_tag()))
+                elif m == "idle":
+                    rs = outstanding(("fetch",)) or (fire("retry", "retryFire") and outstanding(("fetch",)))
+                    if rs:
+                        do("fetchDone %d ok - end" % rs[0].k)
+                elif m == "oor":
+                    rs = outstanding(("fetch",)) or (fire("retry", "retryFire") and outstanding(("fetch",)))
+                    if rs:
+                        do("fetchDone %d err outOfRange:%d" % (rs[0].k, self.next_tag()))
+                elif m == "tick":
+                    if fire("loop", "autoCommitTick"):
+                        commit_replies(rng.choice(["ok", "retry", "fatal"]))
+                elif m == "stop" and running:
+                    do("stop")
+                elif m == "shutdown" and running:
+                    if run.procd is not None and not run.procd.called and rng.random() < 0.5:
+                        do("shutdown")
+                        do(rng.choice(["procDone ok", "stop", "procDone err other:%d" % self.next_tag()]))
+                    else:
+                        do("shutdown")
+                    commit_replies(rng.choice(["ok", "ok", "retry", "fatal"]))
+                elif m in ("restart", "restart-back"):
+                    if running:
+                        do(rng.choice(["stop", "shutdown"]))
+                        commit_replies("ok")
+                    lp = run.consumer.last_processed_offset
+                    if m == "restart-back" and lp is not None and lp > 0:
+                        do("start %d" % rng.randrange(0, lp))
+                    else:
+                        do("start %d" % rng.choice([0, 5, 12, -2, -101 if self.cfg["group"] else 0]))
+                    settle(rng.choice([1, 2]))
+            while len(sc["events"]) < 3 and do("advance 1/4"):
+                pass
+        finally:
+            run.end()
+        return sc, impl, run
+
+
+class FairGen(Gen):
+    """A FAIR run against a broker-like log whose every message fits the maximum buffer: no faults, no stop;
+    every request is answered from the log, every timer fired, every processor result delivered, until the
+    consumer has caught up with the end of the log.  Then everything from the start position must have been
+    delivered (monitor `completeOk`)."""
+
+    def generate(self):
+        rng = self.rng
+        cfg = self.cfg
+        cfg["attempts"] = 0
+        self.log = Log(rng, cfg["buf"], cfg["max"], fit=True)
+        script = [{"acts": [], "res": rng.choice(["ok", "ok", "defer"])} for _ in range(60)]
+        sc = {"cfg": cfg, "script": script, "events": [], "log": self.log.msgs(), "fair": True}
+        run = Run(sc)
+        impl = []
+
+        def do(ev):
+            sc["events"].append(ev)
+            impl.append(run.step(ev))
+
+        run.begin()
+        try:
+            offs = [e[0] for e in self.log.entries]
+            start = rng.choice([-2, -2, self.log.earliest(), rng.choice(offs), rng.choice(offs) + 1, self.log.end] + ([-101] if cfg["group"] else []))
+            start = min(start, self.log.end)
+            do("start %d" % start)
+            caught_up = False
+            for _ in range(400):
+                if run.crashed:
+                    break
+                if run.procd is not None and not run.procd.called:
+                    do("procDone ok")
+                    continue
+                rs = [r for r in run.client.reqs.values() if not r.done]
+                if rs:
+                    r = rs[0]
+                    if r.kind == "fetch":
+                        rep = self.log.reply(rng, r.args["offset"], r.args["max_bytes"])
+                        if rep[0] == "err":
+                            do("fetchDone %d err outOfRange:%d" % (r.k, self.next_tag()))
+                            break  # started outside the log: not a fair completeness run
+                        do("fetchDone %d ok %s %s" % (r.k, ",".join("%d:%d" % it for it in rep[1]) or "-", rep[2]))
+                        if r.args["offset"] >= self.log.end:
+                            caught_up = True
+                    elif r.kind == "offsets":
+                        do("offsetDone %d ok %d" % (r.k, self.log.earliest() if r.args["time"] == -2 else self.log.end))
+                    elif r.kind == "offsetFetch":
+                        do("offsetFetchDone %d ok %d" % (r.k, rng.choice([-1] + offs)))
+                    else:
+                        do("commitDone %d ok" % r.k)
+                    continue
+                if caught_up:
+                    break
+                ps = run.clock.pending("retry")
+                if ps:
+                    if ps[0].getTime() > run.clock.seconds():
+                        need = Fraction(ps[0].getTime() - run.clock.seconds()).limit_denominator(10 ** 6)
+                        do("advance %s" % Fraction(max((need * 16).__ceil__(), 1), 16))
+                    do("retryFire")
+                    continue
+                break
+            sc["caught_up"] = caught_up
+            sc["complete_expected"] = not any(e.startswith("fetchDone") and " err " in e for e in sc["events"])
         finally:
             run.end()
         return sc, impl, run
